@@ -313,7 +313,7 @@ func rawObjectKey(expr hcl.Expression) (string, *hcl.Range, bool) {
 		if diags.HasErrors() {
 			return "", nil, false
 		}
-		if val.Type() != cty.String {
+		if val.IsNull() || !val.IsKnown() || val.Type() != cty.String {
 			return "", nil, false
 		}
 
